@@ -50,6 +50,10 @@ def gen(rng, tier):
             m = mc.gen_wf_mrs(rng, max_nouns=3, shuffle_vars=rng.random() < 0.5, shuffle_rels=rng.random() < 0.5)
             wf = True
         cases.append({"k": "eds", "m": m, "wf": wf, "pm": rng.random() < 0.6, "uniq": rng.random() < 0.6})
+    # F8, second trigger (no representative because each member reaches below the other's scopal argument)
+    from harness.props import c07
+    for pm in (True, False):
+        cases.append({"k": "eds", "m": c07.F8_FAMILY, "wf": True, "pm": pm, "uniq": False})
     return cases
 
 
@@ -166,7 +170,7 @@ def oracle(c):
 def known_match(case, failure, known):
     if isinstance(failure, str) and "IndexError" in failure:
         from harness.props import c07
-        if c07._mutual_cycle(case["m"]):
+        if c07._mutual_cycle(case["m"]) or c07._all_members_blocked(case["m"]):
             for e in known:
                 if e["id"] == "F8":
                     return "F8"
